@@ -1106,7 +1106,8 @@ fn gen_argv(rng: &mut Rng) -> Vec<String> {
 
 fn gen_c11(seed: u64, idx: usize, _tier: Tier) -> (RunScenario, C11Extra) {
     let mut rng = Rng::new(scenario_seed(seed, "C11", idx));
-    let n = rng.range(1, 8);
+    // one world in ten has dozens of targets (more argmap files in one run than any batch size a loader might use)
+    let n = if rng.chance(1, 10) { rng.range(18, 40) } else { rng.range(1, 8) };
     let ncmd = rng.range(1, 3);
     // command names may themselves contain a dot: `lint.fix` is defined by `lint.fix.sh`, not by `lint.sh`
     let pool = ["build", "lint.fix", "test", "fmt"];
